@@ -107,7 +107,21 @@ fn layouts(w: &World, seed: u64, quick: bool, scale: f64) -> Vec<Layout> {
             let mut f2: Vec<FileSpec> = files.iter().enumerate().map(|(k, f)| FileSpec { name: format!("{:05}", k), ..f.clone() }).collect();
             let end = f2.last().unwrap().hi;
             f2.push(FileSpec { name: format!("{:05}", f2.len()), lo: end, hi: end, base: 0, finalised: false });
-            out.push(Layout { label: format!("{lab}+e"), kind: "subset+empty", files: f2 });
+            out.push(Layout { label: format!("{lab}+e"), kind: "subset+empty", files: f2.clone() });
+            // ... and additionally with an empty chunk in the middle (a chunk number whose slot range holds no block)
+            if f2.len() >= 3 {
+                let mut f3: Vec<FileSpec> = vec![];
+                for (k, f) in f2.iter().enumerate() {
+                    if k == 1 {
+                        f3.push(FileSpec { name: String::new(), lo: f.lo, hi: f.lo, base: 0, finalised: true });
+                    }
+                    f3.push(f.clone());
+                }
+                for (k, f) in f3.iter_mut().enumerate() {
+                    f.name = format!("{:05}", k);
+                }
+                out.push(Layout { label: format!("{lab}+mid-e+e"), kind: "subset+empty-middle", files: f3 });
+            }
         }
     }
     // copy-splits: every shipped chunk cut into more files, indexes regenerated; a contiguous run
